@@ -108,6 +108,66 @@ theorem partsList_errs (es : List Expr) : ∀ (file : FileId), ∀ p ∈ partsLi
     · exact .inr (partsList_errs es file p hp er her)
 end
 
+mutual
+/-- constancy is hereditary: every part of a closed expression (through references as well) is closed -/
+theorem parts_closed (e : Expr) : ∀ (file : FileId), closed e = true → ∀ p ∈ parts file e, closed p.2 = true :=
+  match e with
+  | .num _ | .boolc _ | .enumv _ _ | .lparamArr _ | .lparam _ _ | .lphys _ _ | .cother _
+  | .cphys _ _ _ | .builtin _ _ => by
+    intro file h p hp
+    simp only [parts, List.mem_singleton] at hp
+    subst hp; exact h
+  | .cvirt l df d => by
+    intro file h p hp
+    simp only [parts, List.mem_cons] at hp
+    rcases hp with rfl | hp
+    · exact h
+    · simp only [closed] at h; exact parts_closed d df h p hp
+  | .lvirt l df d => by
+    intro file h p hp
+    simp only [parts, List.mem_cons] at hp
+    rcases hp with rfl | hp
+    · exact h
+    · simp only [closed] at h; exact parts_closed d df h p hp
+  | .bin l op a b => by
+    intro file h p hp
+    simp only [parts, List.mem_cons, List.mem_append] at hp
+    rcases hp with rfl | hp | hp
+    · exact h
+    · simp only [closed, Bool.and_eq_true] at h; exact parts_closed a file h.1 p hp
+    · simp only [closed, Bool.and_eq_true] at h; exact parts_closed b file h.2 p hp
+  | .choice l c t f => by
+    intro file h p hp
+    simp only [parts, List.mem_cons, List.mem_append] at hp
+    rcases hp with rfl | hp | hp | hp
+    · exact h
+    · simp only [closed, Bool.and_eq_true] at h; exact parts_closed c file h.1 p hp
+    · simp only [closed, Bool.and_eq_true] at h; exact parts_closed t file h.2.1 p hp
+    · simp only [closed, Bool.and_eq_true] at h; exact parts_closed f file h.2.2 p hp
+  | .fn l f args => by
+    intro file h p hp
+    simp only [parts, List.mem_cons] at hp
+    rcases hp with rfl | hp
+    · exact h
+    · simp only [closed] at h; exact partsList_closed args file h p hp
+theorem partsList_closed (es : List Expr) : ∀ (file : FileId), closedList es = true →
+    ∀ p ∈ partsList file es, closed p.2 = true :=
+  match es with
+  | [] => by intro file _ p hp; simp [partsList] at hp
+  | e :: es => by
+    intro file h p hp
+    simp only [partsList, List.mem_append] at hp
+    simp only [closedList, Bool.and_eq_true] at h
+    rcases hp with hp | hp
+    · exact parts_closed e file h.1 p hp
+    · exact partsList_closed es file h.2 p hp
+end
+
+/-- what a closed expression cannot be -/
+theorem closed_not_ref {e : Expr} (h : closed e = true) :
+    (∀ l t, e ≠ .lphys l t) ∧ (∀ l t, e ≠ .lparam l t) ∧ (∀ l, e ≠ .lparamArr l) ∧ (∀ l b, e ≠ .builtin l b) := by
+  refine ⟨?_, ?_, ?_, ?_⟩ <;> intros <;> intro he <;> subst he <;> simp [closed] at h
+
 /-- the expression is one of its own parts -/
 theorem self_mem_parts (file : FileId) (e : Expr) : (file, e) ∈ parts file e := by
   cases e <;> simp [parts]
